@@ -433,6 +433,57 @@ def self_check_plate_addresses(run, b, i, text, body, rstep, mb, ma, solvent, ke
                 return
 
 
+def _axis_cells(a, b_, step, labels):
+    if a not in labels or b_ not in labels:
+        return None
+    i, j = labels.index(a), labels.index(b_)
+    return list(range(i, j + 1, int(step) if step else 1))
+
+
+def cells_named(shown, plate_name, mo):
+    """The wells a slice name printed by the library denotes: P[:], P['A:1'], P['A':'C'], P[:, '1':'3'], P['A':'B', '1':'3'],
+    P[['A:1', 'C:5']], each axis optionally with a step ('A':'E':2, ::2).  -> set of (r, c) | None if not understood."""
+    rows, cols = [str(x) for x in mo.rows], [str(x) for x in mo.cols]
+    if len(set(rows)) != len(rows) or len(set(cols)) != len(cols):
+        return None
+    if shown == plate_name:
+        return set(mo.all_cells())
+    if not shown.startswith(plate_name + '[') or not shown.endswith(']'):
+        return None
+    inner = shown[len(plate_name) + 1:-1].strip()
+    allr, allc = list(range(len(rows))), list(range(len(cols)))
+    AX = r"(?:'([^']*)':'([^']*)'(?::(\d+))?|:(?::(\d+))?)"
+
+    def axis(g, labels, full):
+        a, b_, st, st_all = g
+        if a is None and b_ is None:
+            return full[::int(st_all)] if st_all else full
+        return _axis_cells(a, b_, st, labels)
+    if inner.startswith('[') and inner.endswith(']'):
+        body = inner[1:-1].strip()
+        items = re.findall(r"'([^':']*):([^':']*)'", body)
+        if not items or re.sub(r"'[^']*'|[,\s]", '', body):
+            return None
+        out = set()
+        for r_, c_ in items:
+            if r_ not in rows or c_ not in cols:
+                return None
+            out.add((rows.index(r_), cols.index(c_)))
+        return out
+    m = re.match(r"^'([^':']*):([^':']*)'$", inner)
+    if m and m.group(1) in rows and m.group(2) in cols:
+        return {(rows.index(m.group(1)), cols.index(m.group(2)))}
+    m = re.match("^" + AX + "(?:, " + AX + ")?$", inner)
+    if not m:
+        return None
+    g = m.groups()
+    rs = axis(g[0:4], rows, allr)
+    cs = axis(g[4:8], cols, allc) if any(x is not None for x in g[4:8]) or inner.count(',') else allc
+    if rs is None or cs is None:
+        return None
+    return {(r_, c_) for r_ in rs for c_ in cs}
+
+
 def check_recipe_instructions(run):
     """RecipeStep.instructions of a baked recipe vs the ledger."""
     W = run.W
@@ -522,6 +573,25 @@ def check_recipe_instructions(run):
             q, sname, dname = m.groups()
             if q != c['q'] or c['src'][0] not in sname or c['dst'][0] not in dname:
                 b.V('C19', 'step_transfer_text', key, f"step {i}: '{text}' does not state {c['q']} from {c['src'][0]} to {c['dst'][0]}", kid)
+            # the wells the text names are the wells the step addresses
+            for role, ref, shown in (('source', c['src'], sname), ('destination', c['dst'], dname)):
+                mo = before.get(ref[0])
+                if not isinstance(mo, M.MPlate):
+                    continue
+                sel = ref[1] if len(ref) > 1 and ref[1] is not None else {'k': 'all'}
+                try:
+                    want = set(M.select(sel, mo.shape)[0])
+                except M.Refuse:
+                    continue
+                got = cells_named(shown, ref[0], mo)
+                if got is None:
+                    b.stats['instr:address_unparsed'] += 1
+                    continue
+                b.stats['instr:address_checked'] += 1
+                if got != want:
+                    b.V('C19', 'step_transfer_address', key + (role, sel.get('k')),
+                        f"step {i}: '{text}' names {len(got)} well(s) of {ref[0]} as {role}, the step addresses {len(want)}: "
+                        f"named but not addressed {sorted(got - want)[:4]}, addressed but not named {sorted(want - got)[:4]}", kid)
         else:
             b.stats['instr:other_step_lines'] += 1
     drain_monitor(b, ('recipe',))
